@@ -126,24 +126,34 @@ def gen_case(rng, big, directed=None):
     case['method'] = [None, None, None, 'numpy', 'scipy'][int(rng.integers(0, 5))]
     case['mft'] = [[bool(rng.integers(0, 2)), bool(rng.integers(0, 2))]]
     case['family'] = 'fft'
+    # physical scale: all input coordinates times 2^k (exact), all output coordinates divided by it
+    r = rng.random()
+    k = (int(rng.integers(-20, 11)) if r < 0.3 else (int(rng.integers(-20, -13)) if r < 0.42 else
+         (int(rng.integers(8, 15)) if r < 0.5 else 0)))
+    case['scale_exp'] = k
+    sc = 2.0 ** k
+    case['delta'] = [d * sc for d in case['delta']]
+    case['zero'] = [z * sc for z in case['zero']]
+    case['shift'] = [s / sc for s in case['shift']]
     if rng.random() < 0.3:
         case['family'] = 'grid'
         kind = str(rng.choice(['regular', 'regular', 'separated', 'unstructured']))
         out = {'kind': kind}
         if kind == 'regular':
             out['N'] = [int(rng.integers(1, max(2, min(2 * n, 40 if ndim < 3 else 7)) + 1)) for n in case['N']]
-            out['delta'] = [_dy(rng, 0.03125, 1.5, 5) for _ in range(ndim)]
-            out['zero'] = [_dy(rng, -3, 3, 4) for _ in range(ndim)]
+            out['delta'] = [_dy(rng, 0.03125, 1.5, 5) / sc for _ in range(ndim)]
+            out['zero'] = [_dy(rng, -3, 3, 4) / sc for _ in range(ndim)]
         elif kind == 'separated':
-            out['coords'] = [sorted(_dy(rng, -4, 4, 5) for _ in range(int(rng.integers(2, 12 if ndim < 3 else 5))))
+            out['coords'] = [sorted(set(_dy(rng, -4, 4, 5) / sc for _ in range(int(rng.integers(2, 12 if ndim < 3 else 5)))))
                              for _ in range(ndim)]
+            out['coords'] = [c if len(c) >= 2 else [c[0], c[0] + 1.0 / sc] for c in out['coords']]
         else:
             npts = int(rng.integers(1, 25))
-            out['coords'] = [[_dy(rng, -4, 4, 5) for _ in range(npts)] for _ in range(ndim)]
-            out['weights'] = [_dy(rng, 0.125, 2, 3) for _ in range(npts)]
+            out['coords'] = [[_dy(rng, -4, 4, 5) / sc for _ in range(npts)] for _ in range(ndim)]
+            out['weights'] = [_dy(rng, 0.125, 2, 3) / sc ** ndim for _ in range(npts)]
         case['out'] = out
         r = rng.random()
-        case['in_kind'] = 'regular' if r < 0.6 else ('separated' if r < 0.85 else 'unstructured')
+        case['in_kind'] = 'regular' if r < 0.45 else ('separated' if r < 0.85 else 'unstructured')
         if case['in_kind'] == 'separated' and min(case['N']) < 2:
             case['in_kind'] = 'regular'
         if case['in_kind'] != 'regular':
@@ -151,8 +161,91 @@ def gen_case(rng, big, directed=None):
                                  for d in range(ndim)]
             if case['in_kind'] == 'unstructured':
                 size = int(np.prod(case['N']))
-                case['in_weights'] = [_dy(rng, 0.125, 2, 3) for _ in range(size)]
+                case['in_weights'] = [_dy(rng, 0.125, 2, 3) * sc ** ndim for _ in range(size)]
     return case
+
+
+def gen_steps(rng, dims, nsteps):
+    """a call sequence for ONE transform object: direction, precision, tensor shape and field content change"""
+    steps = []
+    for _ in range(nsteps):
+        r = rng.random()
+        steps.append({'dir': 'f' if rng.random() < 0.5 else 'b',
+                      'dtype': 'complex64' if rng.random() < 0.4 else 'complex128',
+                      'tensor': [] if r < 0.5 else ([2] if r < 0.8 else [2, 2]),
+                      'field': gen_field(rng, dims),
+                      'gseed': int(rng.integers(0, 2 ** 31))})
+    return steps
+
+
+def gen_seq_case(rng, big):
+    """A small case with the parameter corners of the FFT (q = 1; fov < 1 with q·fov < 1, = 1, > 1) and a call
+    sequence that re-uses every transform object."""
+    case = gen_case(rng, False)
+    ndim = len(case['N'])
+    nmax = {1: 40 if big else 24, 2: 12 if big else 8, 3: 5}[ndim]
+    sc = 2.0 ** case['scale_exp']
+    for d in range(ndim):
+        N = int(rng.integers(1, nmax + 1))
+        q = [1.0, 1.0, 2.0, 1.5, 3.0, 1.25][int(rng.integers(0, 6))]
+        M = int(np.round(q * N))
+        corner = int(rng.integers(0, 4))
+        if corner == 0:
+            fov = 1.0
+        elif corner == 1:                       # q·fov = 1 : output as large as the input
+            fov = (N + 0.5) / M
+        elif corner == 2:                       # q·fov < 1
+            fov = (max(1, int(rng.integers(1, N + 1)) - 1) + 0.5) / M if N > 1 else 1.0
+        else:                                   # q·fov > 1, fov < 1
+            fov = (int(rng.integers(N, M + 1)) + 0.5) / M if M > N else 0.5
+        fov = min(1.0, fov)
+        if int(M * fov) < 1:
+            fov = 1.0
+        case['N'][d] = N
+        case['q'][d] = q
+        case['fov'][d] = float(fov)
+    if case['family'] == 'grid':
+        if case.get('in_kind', 'regular') == 'separated' and min(case['N']) < 2:
+            case['in_kind'] = 'regular'
+        if case.get('in_kind', 'regular') != 'regular':
+            case['in_jitter'] = [[_dy(rng, -0.25, 0.25, 4) * case['delta'][d] for _ in range(case['N'][d])] for d in range(ndim)]
+            if case['in_kind'] == 'unstructured':
+                case['in_weights'] = [_dy(rng, 0.125, 2, 3) * sc ** ndim for _ in range(int(np.prod(case['N'])))]
+    case['field'] = gen_field(rng, case['N'])
+    case['seq'] = gen_steps(rng, case['N'], int(rng.integers(3, 7)))
+    case['all_switches'] = True
+    return case
+
+
+def _steps(spec):
+    return [{'dir': d, 'dtype': t, 'tensor': ts, 'field': {'kind': 'random', 'seed': 100 + i}, 'gseed': 200 + i}
+            for i, (d, t, ts) in enumerate(spec)]
+
+
+# one object re-used: precision changes (MFT intermediate array), backward→forward and backward→forward→backward on
+# cropped / padded FFTs (stale internal array), and MFT on non-uniform separated grids at physical scales
+DIRECTED_SEQ = [
+    dict(family='fft', N=[6, 5], delta=[0.5, 0.25], zero=[-1.5, -0.5], q=[1.0, 1.0], fov=[1.0, 1.0], shift=[0.0, 0.0], tensor=[], dtype='complex128',
+         field={'kind': 'random', 'seed': 21}, gseed=21, method=None, mft=[[True, True]], all_switches=True, scale_exp=0,
+         seq=_steps([('f', 'complex64', []), ('b', 'complex64', []), ('f', 'complex128', [2]), ('b', 'complex128', []), ('f', 'complex64', [])])),
+    dict(family='fft', N=[8], delta=[0.25], zero=[-1.0], q=[2.0], fov=[0.8125], shift=[0.0], tensor=[], dtype='complex128',
+         field={'kind': 'random', 'seed': 22}, gseed=22, method=None, mft=[[True, True]], all_switches=True, scale_exp=0,
+         seq=_steps([('f', 'complex128', []), ('b', 'complex128', []), ('f', 'complex128', []), ('f', 'complex128', [2]), ('b', 'complex64', [])])),
+    dict(family='fft', N=[8, 6], delta=[0.25, 0.5], zero=[-1.0, -1.5], q=[1.0, 2.0], fov=[0.5625, 0.3125], shift=[0.25, 0.0], tensor=[], dtype='complex128',
+         field={'kind': 'random', 'seed': 23}, gseed=23, method=None, mft=[[True, True]], all_switches=True, scale_exp=0,
+         seq=_steps([('b', 'complex128', []), ('f', 'complex128', []), ('b', 'complex128', []), ('b', 'complex128', [2]), ('f', 'complex64', [])])),
+    # a 1 mm aperture in metres on a non-uniformly sampled separated grid: pixel areas ~1e-9
+    dict(family='grid', N=[9, 7], delta=[2.0 ** -15, 2.0 ** -15], zero=[-4 * 2.0 ** -15, -3 * 2.0 ** -15], q=[1.0, 1.0], fov=[1.0, 1.0], shift=[0.0, 0.0],
+         tensor=[], dtype='complex128', field={'kind': 'random', 'seed': 24}, gseed=24, method=None, mft=[[True, True]], all_switches=True, scale_exp=-15,
+         in_kind='separated', in_jitter=[[((i * 7) % 5 - 2) * 2.0 ** -18 for i in range(9)], [((i * 3) % 5 - 2) * 2.0 ** -18 for i in range(7)]],
+         out={'kind': 'separated', 'coords': [[-12000.0, -4000.0, -1000.0, 0.0, 2000.0, 10000.0], [-8192.0, -2048.0, 0.0, 1024.0, 12288.0]]},
+         seq=_steps([('f', 'complex128', []), ('b', 'complex128', [])])),
+    dict(family='grid', N=[6, 8], delta=[512.0, 512.0], zero=[-1536.0, -2048.0], q=[1.0, 1.0], fov=[1.0, 1.0], shift=[0.0, 0.0],
+         tensor=[2], dtype='complex128', field={'kind': 'random', 'seed': 25}, gseed=25, method=None, mft=[[True, True]], all_switches=True, scale_exp=9,
+         in_kind='regular',
+         out={'kind': 'separated', 'coords': [[-0.0004, -0.00015, -0.00005, 0.0, 0.0001, 0.00035], [-0.0003, -0.0001, 0.0, 0.00005, 0.00045]]},
+         seq=_steps([('b', 'complex128', []), ('f', 'complex64', [])])),
+]
 
 
 DIRECTED = [
@@ -366,10 +459,10 @@ def grids_close(a, b):
     if a.is_regular and b.is_regular:
         if not np.array_equal(a.dims, b.dims):
             return False
-        sc = max(1.0, float(np.max(np.abs(a.zero))))
+        sc = np.abs(a.zero) + np.abs(a.delta * a.dims)        # extent of the grid per axis (no absolute floor)
         return bool(np.all(np.abs(a.delta - b.delta) <= 1e-9 * np.abs(a.delta)) and np.all(np.abs(a.zero - b.zero) <= 1e-9 * sc))
     ca, cb = np.array(a.coords), np.array(b.coords)
-    return ca.shape == cb.shape and bool(np.all(np.abs(ca - cb) <= 1e-9 * max(1.0, np.abs(ca).max())))
+    return ca.shape == cb.shape and bool(np.all(np.abs(ca - cb) <= 1e-9 * max(np.abs(ca).max(), 1e-300)))
 
 
 def cls_of(name):
@@ -397,7 +490,7 @@ def oracle_case(case, thorough=False, want_obs=False):
     with Conf(case.get('method')):
         in_grid = make_in_grid(case)
         try:
-            out_grid, transforms = build_transforms(case, in_grid, thorough)
+            out_grid, transforms = build_transforms(case, in_grid, thorough or case.get('all_switches', False))
         except Exception as e:  # noqa
             return [('construct-raises', 'constructing the transform raised %s: %s' % (type(e).__name__, e))], obs
         field = make_field(case, in_grid)
@@ -460,14 +553,54 @@ def oracle_case(case, thorough=False, want_obs=False):
                     bad.append((failing_class(case, name, direction, info), '%s.%s returned %d values for %d points' % (name, direction, res.size, ref.size)))
                     continue
                 res = res.reshape(T, -1)
-                scale = max(1.0, float(np.abs(ref).max()))
+                scale = ref_scale(ref, arg, in_w if direction == 'forward' else grid_desc(og)[2] / float(TWO_PI_LD ** ndim))
                 err = float(np.abs(res.astype(CLD) - ref).max())
                 obs.setdefault('maxerr', {})
                 obs['maxerr'][cls_of(name)] = max(obs['maxerr'].get(cls_of(name), 0.0), err / scale)
                 if not err <= tol * scale:
                     bad.append((failing_class(case, name, direction, info),
                                 '%s.%s differs from the defining sum: max error %.3g (scale %.3g, tolerance %.1e·scale)' % (name, direction, err, scale, tol)))
+            # the same object, driven through further calls with changing precision, tensor shape and content
+            for si, st in enumerate(case.get('seq', [])):
+                scase = dict(case, tensor=st['tensor'], dtype=st['dtype'], field=st['field'], gseed=st['gseed'])
+                Ts = int(np.prod(st['tensor'])) if st['tensor'] else 1
+                ck = (key_og, si)
+                if ck not in ref_cache:
+                    o_sep, o_full, o_w = grid_desc(og)
+                    if st['dir'] == 'f':
+                        a = make_field(scase, in_grid)
+                        r = ref_sum(in_sep, in_full, in_w, o_sep, o_full, np.asarray(a).reshape(Ts, -1), -1, ndim)
+                        wsrc = in_w
+                    else:
+                        a = make_field(scase, og, which='g')
+                        r = ref_sum(o_sep, o_full, o_w, in_sep, in_full, np.asarray(a).reshape(Ts, -1), +1, ndim) / (TWO_PI_LD ** ndim)
+                        wsrc = o_w / float(TWO_PI_LD ** ndim)
+                    ref_cache[ck] = (a, r, wsrc)
+                a, r, wsrc = ref_cache[ck]
+                direction = 'forward' if st['dir'] == 'f' else 'backward'
+                try:
+                    res = np.asarray(ft.forward(a) if st['dir'] == 'f' else ft.backward(a))
+                except Exception as e:  # noqa
+                    bad.append(('%s-%s-reused-raises' % (cls_of(name), direction), '%s.%s (call %d on one object) raised %s: %s' % (name, direction, si + 3, type(e).__name__, e)))
+                    continue
+                if res.size != r.size:
+                    bad.append(('%s-%s-reused' % (cls_of(name), direction), '%s.%s (call %d on one object) returned %d values for %d points' % (name, direction, si + 3, res.size, r.size)))
+                    continue
+                scale = ref_scale(r, a, wsrc)
+                err = float(np.abs(res.reshape(Ts, -1).astype(CLD) - r).max())
+                obs['reuse_calls'] = obs.get('reuse_calls', 0) + 1
+                if not err <= tol_for(st['dtype']) * scale:
+                    bad.append(('%s-%s-reused' % (cls_of(name), direction),
+                                '%s.%s, call %d on one object (%s, tensor %s), differs from the defining sum: max error %.3g (scale %.3g); a fresh object is right' % (
+                                    name, direction, si + 3, st['dtype'], st['tensor'], err, scale)))
     return bad, obs
+
+
+def ref_scale(ref, arg, w):
+    """Scale of the comparison: the largest reference value, but at least 1e-3 of the bound Σ|f|·|w| of the sum
+    (no absolute floor: grids with physical scales have weights from 1e-12 to 1e6)."""
+    l1 = float(np.max(np.sum(np.abs(np.asarray(arg).reshape(ref.shape[0], -1)).astype(LD) * np.abs(w), axis=-1)))
+    return max(float(np.abs(ref).max()), 1e-3 * l1, 1e-300)
 
 
 # ---------------------------------------------------------------------------------------------
@@ -534,7 +667,7 @@ def correspondence_requests(case, ft):
             zero_m = float(TWO_PI_LD * LD(zT[d].numerator) / LD(zT[d].denominator) + LD(case['shift'][d]))
             if abs(og.delta[d] - delta_m) > 1e-12 * abs(delta_m):
                 return 'output delta[%d]: implementation %r, model %r' % (d, float(og.delta[d]), delta_m)
-            if abs(og.zero[d] - zero_m) > 1e-10 * max(1.0, abs(zero_m)):
+            if abs(og.zero[d] - zero_m) > 1e-10 * (abs(zero_m) + abs(delta_m) * Mos[d]):
                 return 'output zero[%d]: implementation %r, model %r' % (d, float(og.zero[d]), zero_m)
         w = float(Fraction(kv['w']))
         if not np.isscalar(ft.weights) or abs(ft.weights - w) > 1e-12 * abs(w):
@@ -605,6 +738,7 @@ def fftparams_requests(case, ft):
         return []
     ndim = len(case['N'])
     Mos = [int(m) for m in ft.shape_out[::-1]]
+    og_delta = np.asarray(ft.output_grid.delta, dtype='float64')
     lines = []
     for d in range(ndim):
         zeroT = -dTs[d] * (Mos[d] // 2)
@@ -629,7 +763,7 @@ def fftparams_requests(case, ft):
             if abs(q[d] - float(mq)) > 1e-9 * max(1.0, abs(float(mq))):
                 return 'axis %d: q implementation %r, model %s' % (d, float(q[d]), mq)
             mshift = float(TWO_PI_LD * LD(mshT.numerator) / LD(mshT.denominator) + LD(ms.numerator) / LD(ms.denominator))
-            if abs(shift[d] - mshift) > 1e-9 * max(1.0, abs(mshift)):
+            if abs(shift[d] - mshift) > 1e-9 * (abs(mshift) + abs(float(og_delta[d])) * Mo):
                 return 'axis %d: shift implementation %r, model %r' % (d, float(shift[d]), mshift)
             M = mq * N
             if M.denominator != 1 or (M * mfov).__floor__() != Mo:
@@ -701,7 +835,7 @@ def compare_impulse(resps, res, ndim):
     pipe, summ = out
     if pipe.size != res.size:
         return 'model returns %d samples, implementation %d' % (pipe.size, res.size)
-    scale = max(1.0, float(np.abs(pipe).max()))
+    scale = max(float(np.abs(pipe).max()), 1e-300)
     e1 = float(np.abs(res.astype(CLD) - pipe).max())
     e2 = float(np.abs(summ - pipe).max())
     if not e1 <= 1e-9 * scale:
@@ -727,6 +861,15 @@ def count_case(ctx, case, obs):
     ctx.count('tensor-rank:%d' % len(case['tensor']))
     ctx.count('dtype:' + case['dtype'])
     ctx.count('field:' + case['field']['kind'])
+    k = case.get('scale_exp', 0)
+    ctx.count('input-scale:' + ('1' if k == 0 else ('2^-20..2^-11' if k <= -11 else ('2^-10..2^-1' if k < 0 else ('2^1..2^7' if k < 8 else '2^8..2^14')))))
+    if 'seq' in case:
+        ctx.count('reuse-sequence-cases')
+        ctx.count('reuse-calls', obs.get('reuse_calls', 0))
+        for d in range(ndim):
+            qf = Fraction(case['q'][d]) * Fraction(case['fov'][d])
+            ctx.count('reuse-axis:q=1' if case['q'][d] == 1 else 'reuse-axis:q>1')
+            ctx.count('reuse-axis:fov=1' if case['fov'][d] == 1 else ('reuse-axis:fov<1,q·fov<1' if qf < 1 else ('reuse-axis:fov<1,q·fov≈1' if qf < 1 + Fraction(1, 2 * max(1, case['N'][d])) * 2 else 'reuse-axis:fov<1,q·fov>1')))
     ctx.count('fft-backend:' + str(case.get('method')))
     if case['family'] == 'grid':
         ctx.count('out-grid:' + case['out']['kind'])
@@ -802,7 +945,7 @@ def edge_case_oracle(case):
         ref = ref_sum(None, full_coords(in_sep), w, None, o_full, np.asarray(f).reshape(1, -1), -1, ndim)
         res = np.asarray(ft.forward(f)).reshape(1, -1)
         err = float(np.abs(res.astype(CLD) - ref).max())
-        if not err <= 1e-9 * max(1.0, float(np.abs(ref).max())):
+        if not err <= 1e-9 * ref_scale(ref, f, w):
             bad.append((key, '%s.forward on the requested grid differs from the defining sum by %.3g' % (type(ft).__name__, err)))
     return bad
 
@@ -824,10 +967,14 @@ def run(ctx, prop='C01'):
                         'BLAS gemm and np.dot compute matrix products', 'x86 longdouble (64-bit mantissa) reference sums are exact to 1e-15 relative',
                         'the dyadic grid parameters generated are exactly representable, so the model sees the rationals the code sees']
     thorough = ctx.tier == 'thorough'
-    n = ctx.scale(140, 900)
+    n = ctx.scale(110, 800)
     cases = [dict(c) for c in DIRECTED]
     for i in range(n):
         cases.append(gen_case(ctx.rng, big=thorough and i % 4 == 0))
+    nseq = ctx.scale(45, 400)
+    for i in range(nseq):
+        cases.append(gen_seq_case(ctx.rng, big=thorough))
+    cases += [dict(c) for c in DIRECTED_SEQ]
     for ec in EDGE_CASES:
         for key, what in edge_case_oracle(ec):
             ctx.violation(key, what, ec)
